@@ -297,3 +297,25 @@ pub proof fn lemma_add_idx{X}(s: int, b: int)
         b % {I.bits} + s % {I.bits} >= {I.bits} ==> ((s + b) / {I.bits} == s / {I.bits} + b / {I.bits} + 1 && (s + b) % {I.bits} == b % {I.bits} + s % {I.bits} - {I.bits}),
 {
 }
+// every bit pattern is the pattern of some word
+pub proof fn lemma_bits_to_word{X}(p: spec_fn(nat) -> bool, n: nat) -> (v: {I})
+    requires n <= {I.bits}
+    ensures forall|t: nat| t < {I.bits} ==> #[trigger] wbit{X}(v, t) == (t < n && p(t))
+    decreases n
+{
+    if n == 0 {
+        assert forall|t: nat| t < {I.bits} implies #[trigger] wbit{X}(0{I}, t) == (t < n && p(t)) by { lemma_wbit_zero{X}(t as {I}); }
+        0{I}
+    } else {
+        let v0 = lemma_bits_to_word{X}(p, (n - 1) as nat);
+        let b: {I} = if p((n - 1) as nat) { 1{I} } else { 0{I} };
+        let s = (n - 1) as {I};
+        let v = v0 | (b << s);
+        assert forall|t: nat| t < {I.bits} implies #[trigger] wbit{X}(v, t) == (t < n && p(t)) by {
+            lemma_wbit_or{X}(v0, b << s, t as {I});
+            lemma_wbit_shl{X}(b, s, t as {I});
+            if t >= s { lemma_wbit_one{X}((t - s) as {I}); lemma_wbit_zero{X}((t - s) as {I}); }
+        }
+        v
+    }
+}
